@@ -53,6 +53,9 @@ def make_objective(name, np, ub, rettype):
         # the first variable, returned as a *view* of the argument (a size-1 array sharing its memory): a legal
         # objective whose value must be taken when it is returned, not when it is looked at later
         return lambda x: x[0]
+    if name == 'view00':
+        # the same value as a 0-d array that is still a view of the argument (what np.squeeze gives on one variable)
+        return lambda x: x[0][:1].reshape(())
     if name == 'outside':
         # the unconstrained optimum lies beyond the upper bounds: every out-of-box step towards it is an improvement
         tgt = ubc + 1.0 + 0.5 * np.abs(ubc)
@@ -445,8 +448,21 @@ def live_checks(L, s, cfg):
         for j in range(i + 1, len(arrs)):
             if isinstance(arrs[i], np.ndarray) and isinstance(arrs[j], np.ndarray) and np.shares_memory(arrs[i], arrs[j]):
                 alias.append((i, j))
+    # a fitness that is an array may share storage with its own agent's position (the objective returned a view) but
+    # with nothing of any other agent, nor may the best agent's fitness share storage with any population member
+    owners = list(s.agents) + [s.best_agent]
+    fit_alias = []
+    for i, a in enumerate(owners):
+        if not isinstance(a.fit, np.ndarray):
+            continue
+        for j, b in enumerate(owners):
+            if i == j:
+                continue
+            if (isinstance(b.position, np.ndarray) and np.shares_memory(a.fit, b.position)) or \
+                    (isinstance(b.fit, np.ndarray) and j > i and np.shares_memory(a.fit, b.fit)):
+                fit_alias.append((i, j))
     shapes = [tuple(getattr(a.position, 'shape', ())) for a in s.agents]
-    return dict(n=len(s.agents), alias=alias, shapes=shapes,
+    return dict(n=len(s.agents), alias=alias, fit_alias=fit_alias, shapes=shapes,
                 best_shape=tuple(getattr(s.best_agent.position, 'shape', ())))
 
 
@@ -562,6 +578,12 @@ def build_task(L, cfg, events):
     return sp, opt, fn, of
 
 
+def _shifted(of):
+    def other(x):
+        return -1000.0 - abs(float(fnum(of(x))))
+    return other
+
+
 def hp_snapshot(opt):
     out = {}
     for k, v in vars(opt).items():
@@ -609,6 +631,14 @@ def record_run(cfg):
                 for j in range(a.position.shape[0]):
                     lo, hi = (0.0, 1.0) if cfg['space'] == 'hyper' else (a.lb[j], a.ub[j])
                     a.position[j] = lo if hook_rng.random() < 0.5 else hi
+            elif cfg['hook'] == 'outside' and len(s.agents) > 0:
+                # relocates one agent to a point beyond its box: the sweep that follows must evaluate exactly that point
+                i = hook_rng.randrange(len(s.agents))
+                a = s.agents[i]
+                for j in range(a.position.shape[0]):
+                    lo, hi = (0.0, 1.0) if cfg['space'] == 'hyper' else (float(a.lb[j]), float(a.ub[j]))
+                    w = (hi - lo) or 1.0
+                    a.position[j] = hi + 1.5 * w if hook_rng.random() < 0.5 else lo - 1.5 * w
             elif cfg['hook'] == 'swap' and len(s.agents) > 1:
                 i, j = hook_rng.sample(range(len(s.agents)), 2)
                 s.agents[i], s.agents[j] = s.agents[j], s.agents[i]
@@ -622,7 +652,16 @@ def record_run(cfg):
         # the same optimizer object has already run another task (other box / shape / length) before this one
         pr = dict(cfg, **cfg['prior'])
         try:
-            if pr['space'] == 'tree':
+            if cfg['prior'].get('same_space'):
+                # the recorded task is the *second* one on this very space (same objective, untapped), started
+                # through Opytimizer.start like the recorded one
+                pof = of
+                if cfg['prior'].get('other_objective'):
+                    # … or another objective (much smaller values everywhere): nothing computed for it may survive
+                    pof = _shifted(of)
+                L['Opytimizer'](space=sp, optimizer=opt, function=L['Function'](pointer=pof)).start()
+                psp = None
+            elif pr['space'] == 'tree':
                 psp = L['TreeSpace'](n_trees=pr['n_agents'], n_terminals=pr['n_terminals'], n_variables=pr['n_vars'],
                                      n_iterations=pr['n_iter'], min_depth=pr['min_depth'], max_depth=pr['max_depth'],
                                      functions=list(pr['functions']), lower_bound=list(pr['lb']), upper_bound=list(pr['ub']))
@@ -632,8 +671,9 @@ def record_run(cfg):
             else:
                 psp = L['HyperSpace'](n_agents=pr['n_agents'], n_variables=pr['n_vars'], n_dimensions=pr['n_dims'],
                                       n_iterations=pr['n_iter'], lower_bound=list(pr['lb']), upper_bound=list(pr['ub']))
-            pfn = L['Function'](pointer=make_objective('sphere', np, pr['ub'] if pr['space'] != 'hyper' else [1.0] * pr['n_vars'], 'py'))
-            opt.run(psp, pfn)
+            if psp is not None:
+                pfn = L['Function'](pointer=make_objective('sphere', np, pr['ub'] if pr['space'] != 'hyper' else [1.0] * pr['n_vars'], 'py'))
+                opt.run(psp, pfn)
         except Exception as ex:
             rec['error'] = dict(phase='prior', type=type(ex).__name__, msg=str(ex)[:300], frames=[])
             return rec
